@@ -610,6 +610,7 @@ theorem effectAllowedB_mono {a b : Bool} (hab : a = true → b = true) (cfg : Cf
         unfold effectAllowedB at h ⊢
         simp at h ⊢
         exact ⟨h.1.1, h.2⟩
+      | copied o r => exact h
 
 theorem statusAllowedB_mono {a b : Bool} (hab : a = true → b = true) (op : Op)
     (h : statusAllowedB a op = true) : statusAllowedB b op = true := by
